@@ -11,6 +11,9 @@ the exception type, never a score.  DESIGN.md section 5.1 and appendix A.
 
 import copy
 import io
+import os
+import shutil
+import tempfile
 
 from . import core, model_io as M, seams
 from .pool import CHORD_LABELS
@@ -773,7 +776,7 @@ def gen_plan(rng, tier, i):
         if rng.random() < 0.25:
             # a second act for this step: the caller edits one of the LOADED arrays in place (a single-value
             # corruption, same objects) after the first evaluation and evaluates again
-            kinds = {"beat": ["unsort", "huge"], "onset": ["unsort", "huge"], "alignment": ["unsort", "negative"],
+            kinds = {"beat": ["unsort", "huge", "unsort_inner"], "onset": ["unsort", "huge", "unsort_inner"], "alignment": ["unsort", "negative", "unsort_inner", "negative_inner"],
                      "segment": ["zero_duration", "negative"], "chord": ["zero_duration", "negative"],
                      "transcription": ["zero_duration", "negative", "pitch_zero"], "transcription_velocity": ["zero_duration", "pitch_zero"],
                      "multipitch": ["unsort", "freq_range"], "tempo": ["tempo_negative"], "key": ["key_mode_case", "key_mode_case", "key_unknown"]}
@@ -797,6 +800,12 @@ def apply_edit(task, d, edit):
         if kind == "unsort" and a.size >= 2 and a[0] != a[-1]:
             a[0], a[-1] = a[-1], a[0]
             return "swapped first and last %s event in place" % side
+        if kind == "unsort_inner" and a.size >= 4 and a[1] != a[-2]:
+            a[1], a[-2] = a[-2], a[1]  # first / last value and length unchanged
+            return "swapped the second and the second-to-last %s event in place" % side
+        if kind == "negative_inner" and a.size >= 3 and task == "alignment":
+            a[1] = -1.0
+            return "set the second %s timestamp to -1 in place" % side
         if kind == "huge" and a.size >= 1 and task != "alignment":
             a[-1] = 1e6
             return "set the last %s event to 1e6 s in place" % side
@@ -874,6 +883,14 @@ def execute(plan, want_logs=False):
             seen.add((cls, site))
             violations.append(core.violation(cls, site, detail))
 
+    tmpdir = tempfile.mkdtemp(prefix="mirsim-c14-")
+    try:
+        return _execute_steps(plan, me, mio, fs, fired, tmpdir, stats, log, report, violations, want_logs)
+    finally:
+        shutil.rmtree(tmpdir, ignore_errors=True)
+
+
+def _execute_steps(plan, me, mio, fs, fired, tmpdir, stats, log, report, violations, want_logs):
     for n, step in enumerate(plan["steps"]):
         task = step["task"]
         data, failed = {}, None
@@ -881,9 +898,12 @@ def execute(plan, want_logs=False):
             spec = step["files"][name]
             fn = getattr(mio, M.LOADER[spec["fmt"]])
             kw = M.loader_kwargs(spec["style"]) if spec["fmt"] != "patterns" else {}
-            path = "/simfs/s%d_%s.txt" % (n, name)
+            path = os.path.join(tmpdir, "s%d_%s.txt" % (n, name))
             fs.files[path] = spec["text"].encode("utf-8")
             fs.dev[path] = spec.get("dev") or {}
+            if step["access"] == "path":
+                with open(path, "wb") as fh:
+                    fh.write(fs.files[path])
             try:
                 if step["access"] == "path":
                     with seams.PatchedOpen(fs):
